@@ -363,12 +363,61 @@ def eval_terminal(case):
         return out  # refused: nothing claimed
     st = res.value.statistics
     fields = {k: getattr(st, k) for k in ("sum", "sum2", "weight", "min", "max")}
+    fields.update({"mean()": st.mean(), "variance()": st.variance(), "std()": st.std()})
     bad = {k: fl(v) for k, v in fields.items() if not math.isnan(v)}
     if bad and not (kind in ("slice", "mask") and False):
         # a wrong number is a violation; for an empty source (no data) zeros are the truth
         if data or kind not in ("bare_frequencies",):
             if not (not data and kind in ("slice", "mask", "sub", "isub", "free_sub", "free_isub")):
                 out.append(V("invalid_reads_nan", f"invalidated_not_nan|{kind}", case, "all statistics NaN", bad))
+    return out
+
+
+def eval_adaptive_add(case):
+    """Statistics of a + b for adaptive fixed-width histograms whose bins differ (the sum re-bins both)."""
+    from physt import h1
+
+    da, db = case["a"], case["b"]
+    wa, wb = case.get("wa"), case.get("wb")
+
+    def mk(d, w):
+        kw = {}
+        if w is not None:
+            kw["weights"] = np.array([w] * len(d))
+        return h1(np.array(d, dtype=float) if d else None, "fixed_width", bin_width=1.0, adaptive=True, **kw)
+
+    a, b = mk(da, wa), mk(db, wb)
+    ent = [(x, frac(wa if wa is not None else 1)) for x in da] + [(x, frac(wb if wb is not None else 1)) for x in db]
+    out = []
+    results = {"add": call(lambda: a + b), "radd": call(lambda: b + a), "sum": call(lambda: sum([a, b]))}
+    c = a.copy()
+
+    def iadd():
+        nonlocal c
+        c += b
+        return c
+
+    results["iadd"] = call(iadd)
+    for name, r in results.items():
+        if not r.ok:
+            out.append(V("must_succeed", f"adaptive_add|{name}|{exc_sig(r.exc)}", case, "a sum", r.describe()))
+            continue
+        st = r.value.statistics
+        if not ent:
+            continue
+        want = {"sum": sum(frac(x) * w for x, w in ent), "sum2": sum(frac(x) * frac(x) * w for x, w in ent), "weight": sum(w for _, w in ent),
+                "min": frac(min(x for x, _ in ent)), "max": frac(max(x for x, _ in ent))}
+        got = {k: getattr(st, k) for k in want}
+        def wrong(k):
+            try:
+                g = float(got[k])
+            except (TypeError, ValueError):
+                return True
+            return math.isnan(g) or math.isinf(g) or frac(g) != want[k]
+
+        bad = [k for k in want if wrong(k)]
+        if bad:
+            out.append(V("statistics", f"adaptive_add_stats|{name}|{'+'.join(bad)}", case, {k: float(v) for k, v in want.items()}, {k: repr(v) for k, v in got.items()}))
     return out
 
 
@@ -385,6 +434,7 @@ def units(tier, seed):
     for data, w in starts:
         us.append({"kind": "bfs", "config": {"start": [data, w], "N": N}})
     us.append({"kind": "terminal"})
+    us.append({"kind": "adaptive_add"})
     return us
 
 
@@ -396,6 +446,18 @@ def run_unit(unit, ctx):
         H.dfs_validate(sysm, p, seen, 2, ctx, op_filter=lambda op: op[0] in ("fill", "mul", "add", "copy"))
         p.outcome(f"start={len(unit['config']['start'][0])}:{unit['config']['start'][1]}")
         p.sample({"config": unit["config"], "a_state_history": H.listify(list(seen.values())[-1][3])})
+    elif unit["kind"] == "adaptive_add":
+        sets = [[], [0.5], [0.25, 1.75], [5.5, 7.25], [-3.5], [2.0, 2.0, 9.75]]
+        for da in sets:
+            for db in sets:
+                for wa, wb in ((None, None), (None, 0.5), (2, 0.5)):
+                    case = {"a": da, "b": db, "wa": wa, "wb": wb}
+                    vs = eval_adaptive_add(case)
+                    p.ev(bool(da) and bool(db))
+                    p.states += 1
+                    p.transitions += 4
+                    p.extend(vs)
+        p.sample(case)
     else:
         datasets = [[]] + [[v] for v in VALUES] + [[a, b] for a, b in itertools.product(VALUES[::2], repeat=2)] + [[0.25, 1.75, 3.5]]
         for data in datasets:
@@ -414,6 +476,8 @@ def run_unit(unit, ctx):
 def replay(case):
     if "kind" in case and "data" in case:
         return eval_terminal(case)
+    if "a" in case and "b" in case:
+        return eval_adaptive_add(case)
     sysm = StatsSystem(dict(case["config"], N=99))
     vs, model, obj = H.replay_history(sysm, case["history"], case.get("op"))
     if vs or "other_history" not in case:
